@@ -8,5 +8,7 @@ NEXT Next
 INVARIANT Complete
 INVARIANT Sound
 INVARIANT Tamper
+INVARIANT StreamStops
+INVARIANT BoundsReach
 PROPERTY FreshChunks
 CHECK_DEADLOCK TRUE
